@@ -139,7 +139,7 @@ PROPS = {
         assumptions=['well-posed layouts', 'requests with distinct resource names']),
     'C15': dict(
         vfile='Props/C15.v', ties=['Tie/TieEnv.v', 'Tie/TieFloor.v', 'Tie/TieRM.v', 'Tie/TieMaint.v'],
-        families=[('floor', 400, 12000, 'small', 'large')],
+        families=[('floor', 400, 12000, 'small', 'large'), ('maint', 300, 6000, 'small', 'large')],
         rule='F_floor scenarios: layered production lines (sources incl. cycle 0 and finite budgets, handlers, processors with resources/callbacks/work orders, buffers with delay and capacity, batchers, decision gates, flow controllers, shared groups reached through several paths incl. nested and re-entrant use, sinks), scripted failures/shutdowns/restores/blocking/capacity changes/budget adjustments/one-shot offsets/mid-run rewiring/devices constructed mid-run with upstream devices named in the constructor, many single steps then runs, generated from VERIF_SEED (corpus/floor first); '
              'non-trivial = at least 8 parts received and 3 supplied; distinct by scenario text',
         explanation='Records only appended; each record carries the state of its moment; level record = level; resource record = pool. Device/data-log link invariant for every exception-free reachable state incl. inside runs: source produced counter = number of its supplied-part records, last level record of a buffer = its level (resource-manager and maintainer records proved to carry other labels). Exactly-one-record-per-occurrence for the other kinds, the sink counter (parts vs hand-overs) and last-resource-record = pool over runs are decided by the record monitor and the lock-step on the full data log. PARTIAL for those.',
